@@ -7,4 +7,5 @@ CONSTANTS
   FixB = FALSE
   FixC = FALSE
   FixD = FALSE
-INVARIANTS Fresh Demoted
+  FixE = TRUE
+INVARIANTS Fresh Demoted ClosedQuiet
